@@ -89,6 +89,18 @@ def cases(tier, seed):
                        "sowconst": {"k": 5 if (n + rl) % 2 else 0}}
 
 
+    # crops of 10+ batches (two-digit ids), also reaped with wait=True
+    for far in farmers:
+        for desc in ("scalar", "attrs"):
+            for rl in (0, 2, 3):
+                for wait in (False, True):
+                    pol = (None, None) if far.startswith("harv") else None
+                    yield {"desc": desc, "farmer": far, "kind": "grid",
+                           "n": 12, "mode": "batchsize", "req": 1,
+                           "shuffle": 3 if rl else False, "reload": rl,
+                           "policy": pol, "wait": wait}
+
+
 def worker_init():
     import xyzpy  # noqa
 
@@ -391,12 +403,13 @@ def check_case(case):
         for i in range(B, 0, -1):
             grow(i, crop=gcrop, verbosity=0)
         rcrop = xyz.Crop(name="k", parent_dir=d) if rl in (2, 3) else crop
+        wkw = {"wait": True} if case.get("wait") else {}
         if far == "runner-df":
-            got = rcrop.reap_runner(rcrop.farmer, to_df=True)
+            got = rcrop.reap_runner(rcrop.farmer, to_df=True, **wkw)
         elif far.startswith("harv"):
-            got = rcrop.reap(overwrite=pol)
+            got = rcrop.reap(overwrite=pol, **wkw)
         else:
-            got = rcrop.reap()
+            got = rcrop.reap(**wkw)
         err = None
     except Exception as e:
         got, err = None, e
